@@ -5,13 +5,14 @@ from harness.common import Stream
 from harness.props.C02 import run_histories_fmt
 
 PID = "C03"
-LEAN_MODULES = ["Astm.Proofs.C03"]
+LEAN_MODULES = ["Astm.Proofs.C03", "Astm.State.C03"]
 THEOREMS = [
     "Astm.C03.deliveries_eq_spec", "Astm.C03.eot_delivers_exactly_the_acked",
     "Astm.C03.timeout_and_disconnect_deliver_nothing", "Astm.C03.only_eot_delivers",
     "Astm.C03.state_reset_at_end", "Astm.C03.no_leak_between_transfers", "Astm.C03.merged_message_valid",
     "Astm.C03.astm_byte_exact", "Astm.C03.lis2a_byte_exact", "Astm.C03.format_dispatch",
     "Astm.C03.example_sessions", "Astm.run_refines",
+    "Astm.C03.anchored_code_keeps_no_other_state",
 ]
 RULE = ("sequences of 1-5 sessions on one connection; each session = ENQ, 0-3 messages split into 1-4 frames, text bytes "
         "from all 256 values except framing controls with a bias to >= 0x80, any frame of a run possibly damaged and "
